@@ -270,7 +270,7 @@ func (res *dvResult) signature() string {
 	return b.String()
 }
 
-// dvExecAll runs the script and, when a select race was possible, runs it again until both
+// dvExecAll runs the script and, when a select race was possible, runs it again (64 times) so that all
 // resolutions were (very probably) seen; results are ordered by their logs, so the k-th outcome
 // of a script is the same in every run of the driver.
 func dvExecAll(t *testing.T, s dvScript) []*dvResult {
@@ -279,7 +279,7 @@ func dvExecAll(t *testing.T, s dvScript) []*dvResult {
 		return []*dvResult{first}
 	}
 	seen := map[string]*dvResult{first.signature(): first}
-	for i := 0; i < 24; i++ {
+	for i := 0; i < 64; i++ {
 		r := dvExec(t, s)
 		if _, ok := seen[r.signature()]; !ok {
 			seen[r.signature()] = r
@@ -692,11 +692,17 @@ func dvEnumerate(t *testing.T, base dvScript, a dvAlphabet, visit func(s dvScrip
 			return
 		}
 		depth := len(s.Dials) + len(s.Tasks)
+		expanded := map[string]bool{} // outcomes of one script that run out at the same point share their children
 		for k, res := range dvExecAll(t, s) {
 			if emit {
 				n++
 				visit(s, res, k)
 			}
+			key := fmt.Sprintf("%s/%v", res.Exhausted, res.CancelledAtExhaust)
+			if expanded[key] {
+				continue
+			}
+			expanded[key] = true
 			switch res.Exhausted {
 			case "dial":
 				if depth >= a.maxDepth {
